@@ -11,11 +11,11 @@ import (
 
 func init() {
 	register(&PropRules{
-		ID: "C19",
+		ID:      "C19",
 		Explain: "Update hooks — structural part: (C19.1) notify ⇔ success: every agent function that calls a store-library mutator (AddUser, UpdateUser, SetAdmin, RemoveUser) sends on hooks.Notify on every path where the mutation succeeded and on no path where it failed (remove: unconditionally, after the removal); (C19.2) the transition table of the hooks loop, per iteration path: timer case — run all hooks iff pending > 1, then pending = 0; notify case — run all hooks and Reset(rateLimit) iff pending == 0, then pending = pending+1; store case — only replaces the store path; pending has no other writer; (C19.3) eligibility: a hook is started only if the hooks directory is a directory and not world-writable and the entry is not dot-prefixed, is a regular file or symlink, and has an executable bit; the path is Join(dir, Clean(\"/\"+name)); (C19.4) process shape: exec.Command(path, \"update\") with env = os.Environ() + WHAWTY_AUTH_STORE=<store>, started but never waited for on the hooks goroutine, killed on a one-minute timer in its own goroutine; the store path is written only by the constructor and from the NewStore channel.",
-		Undec: []string{"timing: intervals, 'not earlier than', the rate-limit duration's effect", "real process behaviour (hanging, failing hooks)", "file-system races between the eligibility test and exec"},
-		Run:   runC19,
-		Floors: map[string]int{"C19.1": 4, "C19.2": 4, "C19.3": 1, "C19.4": 3},
+		Undec:   []string{"timing: intervals, 'not earlier than', the rate-limit duration's effect", "real process behaviour (hanging, failing hooks)", "file-system races between the eligibility test and exec"},
+		Run:     runC19,
+		Floors:  map[string]int{"C19.1": 4, "C19.2": 4, "C19.3": 1, "C19.4": 3},
 	})
 }
 
@@ -33,8 +33,8 @@ func isNotifySend(e an.Event) bool {
 func runC19(c *an.Ctx, p *an.Prog, thorough bool) {
 	// ---- C19.1 ----
 	for _, fn := range pkgFns(p, mainPkg) {
-		for _, b := range fn.Blocks {
-			for _, in := range b.Instrs {
+		for _, in := range an.DeepInstrs(fn) {
+			{
 				ci, ok := in.(ssa.CallInstruction)
 				if !ok || !libMutators[an.CalleeName(ci)] {
 					continue
@@ -305,8 +305,8 @@ func c192(c *an.Ctx, p *an.Prog) {
 	n := 0
 	ctor := p.Func("/cmd/whawty-auth", "NewHooksCaller")
 	for _, fn := range pkgFns(p, mainPkg) {
-		for _, b := range fn.Blocks {
-			for _, in := range b.Instrs {
+		for _, in := range an.DeepInstrs(fn) {
+			{
 				if st, ok := in.(*ssa.Store); ok {
 					if fa, ok := st.Addr.(*ssa.FieldAddr); ok && isNamed(fa.X.Type(), mainPkg, "HooksCaller") && fieldNameOf(fa) == "pending" {
 						n++
@@ -467,8 +467,8 @@ func c194(c *an.Ctx, p *an.Prog) {
 	})
 	// Env must be set at all
 	envSet := false
-	for _, b := range rh.Blocks {
-		for _, in := range b.Instrs {
+	for _, in := range an.DeepInstrs(rh) {
+		{
 			if st, ok := in.(*ssa.Store); ok {
 				if fa, ok := st.Addr.(*ssa.FieldAddr); ok && fieldNameOf(fa) == "Env" {
 					envSet = true
@@ -493,8 +493,8 @@ func c194(c *an.Ctx, p *an.Prog) {
 			bad = append(bad, "no watchdog goroutine started by runHook")
 		} else {
 			kills, timer := false, false
-			for _, b := range wd.Blocks {
-				for _, in := range b.Instrs {
+			for _, in := range an.DeepInstrs(wd) {
+				{
 					if ci, ok := in.(ssa.CallInstruction); ok {
 						switch an.CalleeName(ci) {
 						case "(*os.Process).Kill":
@@ -538,8 +538,8 @@ func c194(c *an.Ctx, p *an.Prog) {
 		run := p.Method("/cmd/whawty-auth", "HooksCaller", "run")
 		ctor := p.Func("/cmd/whawty-auth", "NewHooksCaller")
 		for _, fn := range pkgFns(p, mainPkg) {
-			for _, b := range fn.Blocks {
-				for _, in := range b.Instrs {
+			for _, in := range an.DeepInstrs(fn) {
+				{
 					if st, ok := in.(*ssa.Store); ok {
 						if fa, ok := st.Addr.(*ssa.FieldAddr); ok && isNamed(fa.X.Type(), mainPkg, "HooksCaller") && (fieldNameOf(fa) == "store" || fieldNameOf(fa) == "dir") {
 							n++
